@@ -600,9 +600,14 @@ func c16MarkerWithHistory(c *Ctx) {
 	// … up to and including the block whose history the current iteration has just deleted: a marker delete that runs inside
 	// the sweep loop after the per-block deletions must end (exclusively) above the loop's block number, i.e. at counter + k,
 	// k ≥ 1 — ending at the counter itself leaves the commitment of the block just pruned (seeded change C16-G).
+	// the per-block deletions may sit in a same-package helper called from the loop (refactoring C05-R4)
+	var perBlockSites []ssa.Instruction
+	for _, ds := range p.deepSites(f, nameMatcher("pruneStateHistoryFromUpdate", "deleteTransactionHashReverseLookups"), 2) {
+		perBlockSites = append(perBlockSites, ds.outer())
+	}
 	perBlock := func(in ssa.Instruction) bool {
-		for _, s := range sitesOf(f) {
-			if s.Callee != nil && (s.Callee.Name() == "pruneStateHistoryFromUpdate" || s.Callee.Name() == "deleteTransactionHashReverseLookups") && inSameLoop(s.Block(), in.Block()) && dominatesInstr(s.Instr, in) {
+		for _, s := range perBlockSites {
+			if s.Parent() == in.Parent() && inSameLoop(s.Block(), in.Block()) && dominatesInstr(s, in) {
 				return true
 			}
 		}
